@@ -405,7 +405,7 @@ def path_identity(e, c, a):
     return v
 
 
-@model(r"^std::fs::(remove_file|create_dir_all|rename|copy)::<")
+@model(r"^(std::fs::)?(remove_file|create_dir_all|rename|copy)::<")
 def fs_ops(e, c, a):
     fs = _fs(e)
     if "remove_file" in c:
@@ -463,3 +463,83 @@ def zstd_decode_all(e, c, a):
     if hi - lo < 1 or not e.branch(e.binop("Eq", l[lo], Int(8, 0, ZMAGIC))):
         return err(io_err("zstd: not a frame"))
     return ok(VecObj(list(l[lo + 1:hi])))
+
+
+# ====================================================================== misc process / path / stdout models (CLI harness)
+@model(r"^std::env::temp_dir$|^temp_dir$")
+def env_temp_dir(e, c, a):
+    return e.new_bytes(b"/tmp", "String")
+
+
+@model(r"^std::process::id$|^id$")
+def process_id(e, c, a):
+    return Int(32, 0, 4242)
+
+
+@model(r"^Path::join::<|^PathBuf::join::<|^std::path::Path::join::<")
+def path_join(e, c, a):
+    l, lo, hi = e.seq_of(a[0]); m, mlo, mhi = e.seq_of(a[1])
+    return VecObj(list(l[lo:hi]) + [Int(8, 0, ord("/"))] + list(m[mlo:mhi]), "String")
+
+
+@model(r"^(std::fs::)?read::<&?(PathBuf|Path|&Path|&str|String|&PathBuf|P)>$|^(std::fs::)?read_to_string::<")
+def fs_read(e, c, a):
+    fs = _fs(e); p = _path_bytes(e, a[0])
+    if p not in fs.files:
+        return err(io_err("ENOENT"))
+    return ok(VecObj(list(fs.files[p].data), "String" if "to_string" in c else "Vec"))
+
+
+class StdoutObj:
+    variant = None
+
+    def write_model(self, e, items):
+        if getattr(e, "stdout", None) is None:
+            e.stdout = []
+        e.stdout.extend(items)
+        return True
+
+    def flush_model(self, e):
+        return ok(UNIT)
+
+
+@model(r"^std::io::stdout$|^stdout$|^io::stdout$|^Stdout::lock$")
+def io_stdout(e, c, a):
+    return StdoutObj()
+
+
+@model(r" as (std::io::)?Write>::write_fmt$")
+def io_write_fmt(e, c, a):
+    from .models import render_format
+    w = _sink(e, a[0])
+    r = render_format(e, a[1])
+    if r is None:
+        raise Unsupported("write_fmt with a format that cannot be rendered")
+    if isinstance(w, VecObj):
+        w.e.extend(r); return ok(UNIT)
+    if isinstance(w, (FileObj, BufWriterObj)):
+        return ok(UNIT) if w.write_all(e, r) else err(io_err("ENOSPC"))
+    if hasattr(w, "write_model"):
+        w.write_model(e, r); return ok(UNIT)
+    raise Unsupported(f"write_fmt on {w!r}")
+
+
+@model(r"^PathBuf::to_str$|^Path::to_str$|^PathBuf::as_path$|<PathBuf as AsRef<Path>>::as_ref$|<PathBuf as Deref>::deref$|^PathBuf::from::<|<PathBuf as From<.*>>::from$")
+def pathbuf_ops(e, c, a):
+    if c.endswith("to_str"):
+        return some(e.as_slice(a[0]))
+    if "from" in c.rsplit("::", 2)[-2:][0] or c.endswith("::from"):
+        l, lo, hi = e.seq_of(a[0]); return VecObj(list(l[lo:hi]), "String")
+    return e.as_slice(a[0])
+
+
+@model(r"^(rayon::)?ThreadPoolBuilder(::<.*>)?::(new|num_threads|build_global|build|stack_size|thread_name)|^rayon_core::ThreadPoolBuilder")
+def rayon_builder(e, c, a):
+    if re.search(r"::build(_global)?$", c):
+        return ok(UNIT)
+    return Opaque("rayon_builder")
+
+
+@model(r"^num_cpus::get$|^num_cpus::get_physical$|^std::thread::available_parallelism$")
+def num_cpus_get(e, c, a):
+    return usize(4)
